@@ -41,7 +41,7 @@ FAMS = {"spin3": ("S", "S", "S"), "eph3": ("E", "B", "E"), "mixed3": ("V", "B2",
 
 def BOUND(tier):
     if tier == "quick":
-        return {"A": "plane trees <= 4 nodes, m = 3 basis sets (spin; eph and multi-dof families on trees <= 3 nodes)", "B": "2..6 basis sets"}
+        return {"A": "plane trees <= 4 nodes, m = 3 basis sets (spin; eph and multi-dof families on trees <= 3 nodes); all k<=2 tables on trees <= 3 nodes, single rows + hand-shaped tables on 4 nodes", "B": "2..6 basis sets"}
     return {"A": "plane trees <= 5 nodes, m = 3 and 4 basis sets, three families", "B": "2..7 basis sets"}
 
 
@@ -50,13 +50,14 @@ def family(kinds, s):
     return T.Family(kinds, s)
 
 
-def table_set(fam1, fam2, quick):
-    """(family-with-alphabet, table, factors)"""
+def table_set(fam1, fam2, small):
+    """(family-with-alphabet, table, factors, algorithms)"""
     out = []
-    for t in T.tables(fam1, 2):
-        out.append((fam1, t, [1.0, -0.5][:len(t)]))
+    if not small:
+        for t in T.tables(fam1, 2):
+            out.append((fam1, t, [1.0, -0.5][:len(t)], ["Hopcroft-Karp", "qr"]))
     for r in fam2.rows():
-        out.append((fam2, (r,), [2.5]))            # single term, non-unit factor
+        out.append((fam2, (r,), [2.5], ALGOS))            # single term, non-unit factor
     n = fam2.n
     sz = fam2.sizes()
     def row(*pairs):
@@ -78,8 +79,8 @@ def table_set(fam1, fam2, quick):
         fa = [1.0, 0.5, -0.7, 1.3][:len(h)]
         if len(h) == 4 and h[0][:2] == h[1][:2][:1] + h[1][1:2]:
             pass
-        out.append((fam2, h, fa))
-    out.append((fam2, hand[3], [1.0, 1.0, 1.0, 1.0]))                     # exactly rank-one coefficient matrix
+        out.append((fam2, h, fa, ALGOS))
+    out.append((fam2, hand[3], [1.0, 1.0, 1.0, 1.0], ALGOS))                     # exactly rank-one coefficient matrix
     return out
 
 
@@ -97,7 +98,9 @@ def cases(tier, seed):
                 for dist in TR.distributions(m, N):
                     if m == 4 and N == 4 and (sum(len(g) * (i + 1) for i, g in enumerate(dist)) % 3):
                         continue   # m=4, N=4: every third distribution (stated in BOUND) to stay inside the thorough budget
-                    yield {"k": "A", "fam": famname, "parent": parent, "groups": [list(g) for g in dist]}
+                    # the complete k<=2 table enumeration runs on trees up to 3 nodes (quick) / 4 nodes (thorough); larger trees
+                    # get every single-row table and the hand-shaped tables
+                    yield {"k": "A", "fam": famname, "parent": parent, "groups": [list(g) for g in dist], "small": N > (3 if quick else 4)}
     for nb in range(2, (6 if quick else 7) + 1):
         yield {"k": "B", "ctor": "linear", "nb": nb}
         yield {"k": "B", "ctor": "binary", "nb": nb}
@@ -109,7 +112,7 @@ def cases(tier, seed):
                 yield {"k": "B", "ctor": "mctdh", "nb": nb, "order": order, "contract": True, "label": list(bits)}
 
 
-def check_ttno(tree, order_basis, fam, table, factors, viol, tag, counters, mpo_cache):
+def check_ttno(tree, order_basis, fam, table, factors, viol, tag, counters, mpo_cache, algos=ALGOS):
     from renormalizer.tn import TTNO
     from renormalizer.mps import Mpo
     from renormalizer.model import Model
@@ -125,7 +128,7 @@ def check_ttno(tree, order_basis, fam, table, factors, viol, tag, counters, mpo_
             mpo_cache[key] = Mpo(Model(list(fam.basis), []), terms).todense()
         except Exception as e:
             mpo_cache[key] = None
-    for algo in ALGOS:
+    for algo in algos:
         counters["ttno_constructions"] = counters.get("ttno_constructions", 0) + 1
         try:
             ttno = TTNO(tree, terms, algo=algo)
@@ -167,11 +170,12 @@ def run_case(desc, seed):
         parent, groups = desc["parent"], [tuple(g) for g in desc["groups"]]
         nontrivial = False
         mpo_cache = {}
-        for fam, table, factors in table_set(fam1, fam2, True):
+        small = desc.get("small", False)
+        for fam, table, factors, algos in table_set(fam1, fam2, small):
             # a fresh tree per construction: the tree object caches identity/dummy operators
             tree = TR.build_basis_tree(parent, groups, fam.basis)
             tag = f"tree parent={parent} groups={groups} fam={desc['fam']}"
-            nt = check_ttno(tree, list(fam.basis), fam, table, factors, viol, tag, counters, mpo_cache)
+            nt = check_ttno(tree, list(fam.basis), fam, table, factors, viol, tag, counters, mpo_cache, algos)
             nontrivial = nontrivial or nt
         # the multiset of basis sets in the tree
         tree = TR.build_basis_tree(parent, groups, fam2.basis)
